@@ -7,6 +7,7 @@ import (
 	"strconv"
 	"strings"
 	"time"
+	"unicode/utf8"
 
 	"evylang.dev/evy/pkg/parser"
 )
@@ -332,7 +333,12 @@ var indexDecl = &parser.FuncDefStmt{
 func indexFunc(_ *scope, args []value) (value, error) {
 	s := args[0].(*stringVal).V
 	substr := args[1].(*stringVal).V
-	return &numVal{V: float64(strings.Index(s, substr))}, nil
+	idx := strings.Index(s, substr)
+	if idx > 0 {
+		// strings are indexed by code point, not by byte
+		idx = utf8.RuneCountInString(s[:idx])
+	}
+	return &numVal{V: float64(idx)}, nil
 }
 
 var startswithDecl = &parser.FuncDefStmt{
